@@ -81,7 +81,9 @@ func (channel *Channel) exchangeDeclare(method *amqp.ExchangeDeclare) *amqp.Erro
 				method.MethodIdentifier(),
 			)
 		}
-		channel.SendMethod(&amqp.ExchangeDeclareOk{})
+		if !method.NoWait {
+			channel.SendMethod(&amqp.ExchangeDeclareOk{})
+		}
 		return nil
 	}
 
